@@ -56,7 +56,7 @@ MANIFEST = dict(
    note="Trusted: Lean kernel + propext/Classical.choice/Quot.sound; tools/extract; the differential harness (id<->pointer table, "
         "--wrap accounting); allocation success (failure is C08). json_patch_apply is not modelled here (C13). The model is "
         "hand-written: theorems are about the model, the correspondence run is testing. Tie by translation (new): json_object_get and json_object_put (non-threaded build) are translated from clang's typed AST of the current source into Lean on every run (tools/extract/c2lean.py -> Generated/Translated.lean; glibc's assert expands to a branch that ends in __assert_fail) and Lemmas/TranslatedHeap.lean proves on those definitions, for every count, type and callback: get returns the node and raises the count by exactly one; put with other owners left returns 0, lowers the count by one, runs no callback and tears nothing down; releasing the last reference returns 1, runs the user's delete callback first (once, with the node and its userdata) when one is installed, then exactly the teardown function of the node's type (get_null, get_counts, put_null, put_keeps, put_last).",
-   technique="Lean 4 proof (invariant with pending work list, induction over histories) + model/spec/implementation correspondence run",
+   technique="Lean 4 proof (invariant with pending work list, induction over histories) + model/spec/implementation correspondence run + agreement theorems with Lean definitions translated from the current C source (clang AST) on every run",
    design="6/C05")
 
 
